@@ -99,8 +99,8 @@ def gen_cases(rng, tier):
         cases.append({'dm': 'MHEVEN', 'pre': False, 'script': script, 'hist': probes, 'late': [],
                       'q': C15._dirq(w, script)})
     # rejected updates of a money converter (C11's harness and independent oracle)
-    for i in range(20 if tier == 'quick' else 200):
-        sc = C11.gen_script_rejected_first(rng) if i % 2 else C11.gen_script(rng)
+    for i in range(24 if tier == 'quick' else 240):
+        sc = (C11.gen_script_rejected_first, C11.gen_script, C11.gen_script_unregistered)[i % 3](rng)
         cases.append({'k': 'conv', 'c': sc})
     return cases
 
